@@ -34,6 +34,10 @@ func pluginMain() {
 	}
 	parts := strings.SplitN(req.GetParameter(), "|", 2)
 	resp := &pluginpb.CodeGeneratorResponse{}
+	if len(parts) == 2 && parts[0] == "full" {
+		os.Stdout.Write(fullPluginAnswer(req, parts[1]))
+		return
+	}
 	if len(parts) == 2 {
 		f, err := os.CreateTemp(parts[0], "req-*.bin")
 		if err == nil {
@@ -86,6 +90,17 @@ func sectionC(run *hx.Run, r *hx.Rand) {
 			}
 		}
 		rc := genRespCase(cr, cwd)
+		benign := i < run.N(12, 120)
+		if benign {
+			// the first runs succeed by construction (2-4 plugins, one harmless file each, own out
+			// directories), so that what every plugin was SENT is judged: one of them has a type filter
+			rc = respCase{cwd: cwd}
+			np := 2 + cr.Intn(3)
+			for pi := 0; pi < np; pi++ {
+				rc.plugs = append(rc.plugs, plug{out: []string{"gen", "gen2", "other", "new/deep/out"}[pi],
+					files: []rfile{{name: fmt.Sprintf("u%d.txt", pi), content: "x\n"}}})
+			}
+		}
 		// names protoplugin's lenient validation rejects outright would only test that library
 		for pi := range rc.plugs {
 			var keep []rfile
@@ -101,19 +116,30 @@ func sectionC(run *hx.Run, r *hx.Rand) {
 			cfgs[pi] = pcfg{all: cr.Bool(), ii: cr.Bool(), iw: cr.Bool()}
 			cfgs[pi].iw = cfgs[pi].iw && cfgs[pi].ii // the config rejects include_wkt without include_imports
 		}
-		runE2E(run, exe, scratch, img, rc, cfgs, i)
+		// one plugin in three runs has a type filter of its own (`types:` naming the message of the
+		// trigger file): the OTHER plugins must still be sent every target exactly once
+		filterOn := -1
+		if len(rc.plugs) >= 2 && (benign || cr.Chance(1, 3)) {
+			filterOn = cr.Intn(len(rc.plugs))
+			run.Count("C:one-plugin-with-type-filter")
+		}
+		runE2E(run, exe, scratch, img, rc, cfgs, i, filterOn)
 		run.Eval()
 		run.Count("C:cases")
 	}
 }
 
-func runE2E(run *hx.Run, exe, scratch string, img []mfile, rc respCase, cfgs []pcfg, idx int) {
+func runE2E(run *hx.Run, exe, scratch string, img []mfile, rc respCase, cfgs []pcfg, idx int, filterOn int) {
 	desc := map[string]any{"image": describe(img), "case": idx}
 	var ps []string
 	for i, p := range rc.plugs {
-		ps = append(ps, fmt.Sprintf("plugin%d out=%q cfg=%s", i, p.out, cfgs[i].enc()))
+		flt := ""
+		if i == filterOn {
+			flt = " types=[message of the first target]"
+		}
+		ps = append(ps, fmt.Sprintf("plugin%d out=%q cfg=%s%s", i, p.out, cfgs[i].enc(), flt))
 		for _, f := range p.files {
-			ps = append(ps, fmt.Sprintf("  name=%q insertion_point=%q content=%q", f.name, f.ip, f.content))
+			ps = append(ps, "  "+f.String())
 		}
 	}
 	desc["plugins"] = ps
@@ -148,8 +174,16 @@ func runE2E(run *hx.Run, exe, scratch string, img []mfile, rc respCase, cfgs []p
 		if cfgs[i].all {
 			strategy = bufconfig.GenerateStrategyAll
 		}
+		var types []string
+		if i == filterOn {
+			for fi, f := range img {
+				if f.path == targets[0] {
+					types = []string{fmt.Sprintf("p%d.M%d", fi, fi)} // buildImage: file i holds message p<i>.M<i>
+				}
+			}
+		}
 		pc, err := bufconfig.NewLocalGeneratePluginConfig(fmt.Sprintf("verif%d", i), p.out, []string{recDirs[i] + "|" + script},
-			cfgs[i].ii, cfgs[i].iw, nil, nil, &strategy, []string{exe, "--as-plugin"})
+			cfgs[i].ii, cfgs[i].iw, types, nil, &strategy, []string{exe, "--as-plugin"})
 		if err != nil {
 			panic(err)
 		}
@@ -164,6 +198,7 @@ func runE2E(run *hx.Run, exe, scratch string, img []mfile, rc respCase, cfgs []p
 	if err := os.Chdir(rc.cwd); err != nil {
 		panic(err)
 	}
+	treeClean = false
 	resetTree(root)
 	before := snapshot(root)
 	var stderr bytes.Buffer
@@ -205,8 +240,8 @@ func runE2E(run *hx.Run, exe, scratch string, img []mfile, rc respCase, cfgs []p
 		}
 		if gerr == nil || len(reqs) > 0 {
 			// with cancel-on-failure a failing run may have recorded only part of the requests
-			if gerr != nil {
-				continue
+			if gerr != nil || i == filterOn {
+				continue // the filtered plugin's requests are C12's subject (section G there)
 			}
 			oracleRequests(img, cfgs[i], reqs, orig, func(class, what string) { fail(class, fmt.Sprintf("plugin%d: %s", i, what)) })
 			run.CountN("C:requests-recorded", len(reqs))
@@ -230,4 +265,7 @@ func runE2E(run *hx.Run, exe, scratch string, img []mfile, rc respCase, cfgs []p
 		eff.plugs = append(eff.plugs, q)
 	}
 	oracleDisk(eff, gerr, before, after, fail, true)
+	if filterOn < 0 {
+		oraclePlainRun(eff, gerr, before, fail)
+	}
 }
